@@ -57,8 +57,14 @@ class Model:
             "        super().__init__(a, item_type)",
             "    def Take(self, n: int = 5) -> 'RegColl[T]': ...",
         ]
+        # a diamond: Jet(Tagged, Calibrated), both from Particle0; only Calibrated overrides dm (python's MRO picks Calibrated.dm)
+        pd = [("a", "float", 1.0), ("u", "str", "MeV")]
+        cd = [("a", "float", 1.02), ("u", "str", "Ge'V\n")]
+        src += ["class Particle0:", f"    def dm({sig_text(pd)}) -> float: ...", "class Tagged(Particle0):", "    pass", "class Calibrated(Particle0):", f"    def dm({sig_text(cd)}) -> float: ..."]
+        self.sigs[("Jet", "dm")] = cd
+        self.ret[("Jet", "dm")] = "float"
         for cls in ("Trk", "Jet", "Event"):
-            src.append(f"class {cls}:")
+            src.append(f"class {cls}(Tagged, Calibrated):" if cls == "Jet" else f"class {cls}:")
             for m in names:
                 params = gen_signature(rnd)
                 rt = rnd.choice(["float", "float", "int", "bool"])
@@ -88,6 +94,15 @@ class Model:
         self.ns = {}
         exec(compile(self.source, f"<typedmodel{self.id}>", "exec"), self.ns)
         self.Event, self.Jet, self.Trk = self.ns["Event"], self.ns["Jet"], self.ns["Trk"]
+
+    def redefine_method(self, rnd, cls, meth):
+        """History: a method of an already-used class is declared again with another signature."""
+        params = gen_signature(rnd)
+        rt = self.ret[(cls, meth)]
+        ns = dict(self.ns)
+        exec(f"def {meth}({sig_text(params)}) -> {rt}: ...", ns)
+        setattr(self.ns[cls], meth, ns[meth])
+        self.sigs[(cls, meth)] = params
 
     def cleanup(self):
         from func_adl import type_based_replacement as tbr
